@@ -428,8 +428,11 @@ package pipeline
 //@   ensures !held(s.mu)
 //@   assert at "s.commitSeq.Store(event.SeqID)" event.SeqID >= c0
 //@   callee Load() (r)
+//@     requires held(s.mu)
 //@     pure
 //@     set c0 := r
+//@   callee Store(v)
+//@     requires held(s.mu) && v == event.SeqID && v >= c0
 //@   callee tryDetach()
 //@     requires true
 
